@@ -10,6 +10,7 @@ import Fosite.Driver.PureExpiry
 import Fosite.Driver.PureAssertion
 import Fosite.Driver.PureIDToken
 import Fosite.Driver.PureAuthz
+import Fosite.Driver.PureJWTAT
 namespace Fosite.Driver
 open Fosite
 
@@ -28,6 +29,7 @@ def pureModel (fs : List String) : Option String :=
   | "assertion" :: _ => pureModelAssertion fs
   | "idtoken" :: _ => pureModelIDToken fs
   | "authz" :: _ => pureModelAuthz fs
+  | "jwtat" :: _ => pureModelJWTAT fs
   | _ => none
 
 /-- spec side: the documented meaning, used as the monitor oracle on implementation outputs -/
@@ -45,6 +47,7 @@ def pureSpec (fs : List String) : Option String :=
   | "assertion" :: _ => pureSpecAssertion fs
   | "idtoken" :: _ => pureSpecIDToken fs
   | "authz" :: _ => pureSpecAuthz fs
+  | "jwtat" :: _ => pureSpecJWTAT fs
   | _ => none
 
 end Fosite.Driver
